@@ -89,7 +89,7 @@ theorem take_prefix (a b : Bytes) : (a ++ b).take ((a ++ b).length - b.length) =
   have : (a ++ b).length - b.length = a.length := by simp
   rw [this]; simp
 
-theorem vmapSet_fresh (acc : List (Val × AnyVal)) (k : Val) (v : AnyVal) (h : ∀ p ∈ acc, p.1.keyEq k = false) :
+theorem vmapSet_fresh {β : Type} (acc : List (Val × β)) (k : Val) (v : β) (h : ∀ p ∈ acc, p.1.keyEq k = false) :
     vmapSet acc k v = acc ++ [(k, v)] := by
   unfold vmapSet
   have : acc.any (fun p => p.1.keyEq k) = false := by
